@@ -1,4 +1,5 @@
 mod common;
+mod e1;
 mod e4;
 mod subjects;
 
@@ -33,6 +34,7 @@ fn main() {
                 let ctx = Ctx::new("quick");
                 match id.as_str() {
                     "C08" | "C05" => e4::replay_cmd(&ctx, &id, &file),
+                    "C09" | "C10" | "C16" => e1::replay_cmd(&ctx, &id, &file),
                     _ => inconclusive("replay not implemented for this property"),
                 }
             }
@@ -43,6 +45,18 @@ fn main() {
             let ctx = Ctx::new(&tier);
             match id.as_str() {
                 "C08" => e4::c08(&ctx),
+                "C09" => e1::c09(&ctx),
+                "C10" => e1::c10(&ctx),
+                "C16" => {
+                    lock_subjects(&ctx);
+                    subjects::ensure(&ctx, &subjects::SlotCfg::default());
+                    let known = load_known(&ctx, "C16");
+                    let mut out = Outcome::default();
+                    out.rule = "items from a grammar wider than the supported fragment: struct/enum shapes (unit, empty, newtype, tuple, named; 0-4 variants) x 0-3 attribute lists per container/variant/field with any subset of ts and serde keys (valid values, wrong literal kinds, invalid inflections, malformed types, keys of other positions, 24 unknown keys, duplicates) x 9 generics forms x unusual identifiers x doc attribute forms; expanded in-process under catch_unwind, with and without serde-compat. Oracle: no panic; items whose ts-spelled (or cleanly serde-spelled) attributes contain a documented incompatibility must be rejected; a lone unknown ts key must be named in the error. Non-trivial: >=2 attribute lists, or >=2 generic parameters, or a raw/non-ASCII identifier; distinct by item text".into();
+                    out.assumptions = vec!["field/variant level rejections are only expected where the derive processes the field/variant (no container type/as override, variant not skipped)".into()];
+                    e1::c16_inproc(&ctx, &mut out, &known);
+                    finish(&ctx, "C16", out)
+                }
                 "C05" => {
                     lock_subjects(&ctx);
                     let known = load_known(&ctx, "C05");
